@@ -318,15 +318,34 @@ func (t *trTranslator) translateClosureCtor(f *trFunc, ret *ast.ReturnStmt, cbs 
 		}
 	}
 	// field types first: a state variable of untranslatable type rejects the constructor
-	type sfield struct{ name, typ string }
+	type sfield struct {
+		name, typ string
+		obj       types.Object
+		isLog     bool
+	}
 	var fields []sfield
 	hasFuncField := false
 	for _, v := range stateVars {
 		ty := c.leanType(v.Type(), v.Pos())
-		if strings.Contains(ty, "→") {
+		if t.typeHasFunc(v.Type(), 0) {
 			hasFuncField = true
 		}
-		fields = append(fields, sfield{trMangle(v.Name()), ty})
+		fields = append(fields, sfield{trMangle(v.Name()), ty, v, false})
+	}
+	// write-only objects (an interface parameter on which the closures only call one method without results): their call logs
+	var opaqueOuter []*types.Var
+	for _, v := range outer {
+		if c.opaqueParams[v] {
+			opaqueOuter = append(opaqueOuter, v)
+		}
+	}
+	logs := t.findLogParams(c, info, opaqueOuter, cbs)
+	var logObjs []*types.Var
+	for _, v := range opaqueOuter {
+		if lv := logs[v]; lv != nil {
+			fields = append(fields, sfield{trMangle(v.Name()), lv.typ, v, true})
+			logObjs = append(logObjs, v)
+		}
 	}
 	optional := false
 	for _, s := range prologue {
@@ -335,16 +354,20 @@ func (t *trTranslator) translateClosureCtor(f *trFunc, ret *ast.ReturnStmt, cbs 
 		}
 	}
 	pack := func(cc *trCtx) string {
-		if len(stateVars) == 0 {
+		if len(fields) == 0 {
 			return "(⟨⟩ : " + stateName + ")"
 		}
 		var parts []string
-		for i, v := range stateVars {
-			n, ok := cc.names[v]
+		for _, fd := range fields {
+			n, ok := cc.names[fd.obj]
 			if !ok {
-				trFail(v.Pos(), "internal: state variable %s has no value here", v.Name())
+				if fd.isLog {
+					n = "([] : " + fd.typ + ")" // the constructor itself calls nothing on the object
+				} else {
+					trFail(fd.obj.Pos(), "internal: state variable %s has no value here", fd.obj.Name())
+				}
 			}
-			parts = append(parts, fields[i].name+" := "+n)
+			parts = append(parts, fd.name+" := "+n)
 		}
 		return "({ " + strings.Join(parts, ", ") + " } : " + stateName + ")"
 	}
@@ -461,8 +484,9 @@ func (t *trTranslator) translateClosureCtor(f *trFunc, ret *ast.ReturnStmt, cbs 
 		// state variables: local names, read from the state record
 		type bind struct{ name, typ, val string }
 		var binds []bind
-		for i, v := range stateVars {
-			binds = append(binds, bind{cc.local(v), fields[i].typ, stParam + "." + fields[i].name})
+		cc.logVars = logs
+		for _, fd := range fields {
+			binds = append(binds, bind{cc.local(fd.obj), fd.typ, stParam + "." + fd.name})
 		}
 		// the callback's own pointer/map parameters that the body assigns through
 		through := map[types.Object]bool{}
@@ -470,7 +494,7 @@ func (t *trTranslator) translateClosureCtor(f *trFunc, ret *ast.ReturnStmt, cbs 
 			through[o] = true
 		}
 		for _, v := range outer {
-			if through[v] && !isState[v] {
+			if through[v] && !isState[v] && logs[v] == nil {
 				trFail(cb.lit.Pos(), "the closure assigns through the captured parameter %s: outside the subset", v.Name())
 			}
 		}
@@ -501,7 +525,7 @@ func (t *trTranslator) translateClosureCtor(f *trFunc, ret *ast.ReturnStmt, cbs 
 			cbFn.resType = "(" + strings.Join(rts, " × ") + ")"
 		}
 		cc.statePack = func() string { return pack(cc) }
-		cc.stateVars = stateVars
+		cc.stateVars = append(append([]*types.Var{}, stateVars...), logObjs...)
 		term := cc.stmts(cb.lit.Body.List, func() trLines {
 			if fsig.Results().Len() > 0 {
 				trFail(cb.lit.End(), "internal: control reaches the end of a closure with results")
@@ -550,8 +574,12 @@ func (t *trTranslator) translateClosureCtor(f *trFunc, ret *ast.ReturnStmt, cbs 
 		deriving = ""
 	}
 	var sv []string
-	for _, v := range stateVars {
-		sv = append(sv, v.Name())
+	for _, fd := range fields {
+		if fd.isLog {
+			sv = append(sv, fd.obj.Name()+" (the log of the calls "+fd.obj.Name()+"."+logs[fd.obj].method+"(…): the object is write-only)")
+		} else {
+			sv = append(sv, fd.obj.Name())
+		}
 	}
 	fmt.Fprintf(&out, "/-- Go: the variables that the closures of `%s` capture (%s): %s -/\nstructure %s where\n%s%s\n",
 		f.decl.Name.Name, t.l.relPos(f.decl.Pos()), strings.Join(sv, ", "), stateName, trJoinLines(fl), deriving)
